@@ -162,6 +162,21 @@ fn arbitrary_command(rng: &mut Rng, stream_hint: u32) -> (RMsg, u32) {
         };
         return (RMsg::Data(vs), msid);
     }
+    if rng.chance(1, 60) {
+        // names at the edge of what an AMF0 string can carry, built from multi-byte characters
+        // (so any byte-offset arithmetic on them lands inside a character)
+        let unit = *rng.pick(&["é", "中", "😀", "a"]);
+        let target = 65535 - rng.usize(0, 40);
+        let mut name = unit.repeat(target / unit.len());
+        while name.len() < target && rng.coin() {
+            name.push('x');
+        }
+        return match rng.below(3) {
+            0 => (sessprep::command("connect", 1.0, amf::obj(vec![("app", V::Str(name)), ("objectEncoding", amf::num(0.0))]), vec![]), 0),
+            1 => (sessprep::command("publish", 0.0, V::Null, vec![V::Str(name), amf::s("live")]), msid),
+            _ => (sessprep::command("play", 0.0, V::Null, vec![V::Str(name)]), msid),
+        };
+    }
     let name = *rng.pick(&COMMANDS);
     let txid = match rng.below(7) {
         0 => f64::NAN,
